@@ -9,7 +9,7 @@
 (*   CountError("conn_close_lost_ping"), wac = bytes written after the close (client),   *)
 (*   np = len(cc.pings) (client), q/ps/ig/sa/ns = serve-loop snapshot (server).          *)
 (* Every line must be the step Apply(ev) of H2Timers with exactly that outcome.  Timer   *)
-(* expiries are silent steps composed into adv.  strict = without the named deviation.   *)
+(* expiries are silent steps composed into adv.  (strict: probes of the repaired F1.)   *)
 EXTENDS H2Timers, TraceIO
 
 VARIABLES cur, l
@@ -39,8 +39,14 @@ GaName(c) == IF c = 0 THEN "no" ELSE "err"
 \* Does the line show what the specification says the step produced?  In a step in which the
 \* connection closed while other timers were due at the same instant (out.opt) the real code may
 \* have done less of the rest (goroutines / serve-loop messages race).
-Shows(o, t) ==
+\* A server connection that the server closed itself through conn.Close (lost PING, write timeout)
+\* keeps its serve loop under the harness's net.Conn (Close does not wake the blocked reader, and
+\* writes after it still reach the peer's buffer); what that loop does afterwards is not judged.
+Zombie(pre) == cf.side = "s" /\ pre.closed /\ pre.why \in {"lostping", "werr"}
+
+Shows(o, t, pre) ==
     LET ex == ~t.out.opt IN
+    IF Zombie(pre) THEN o.closed = TRUE ELSE
     /\ o.closed = t.closed
     /\ IF ex THEN o.hc = t.out.hc ELSE o.hc <= t.out.hc
     /\ IF ex THEN o.pa = t.out.pa ELSE o.pa <= t.out.pa
@@ -50,7 +56,9 @@ Shows(o, t) ==
     /\ IF ex THEN o.lost = t.out.lost ELSE o.lost <= t.out.lost
     /\ cf.strict => t.nd = "none"
     /\ IF cf.side = "c"
-       THEN /\ IF ex THEN ToSet(o.rst) = t.out.rst ELSE ToSet(o.rst) \subseteq t.out.rst
+       THEN \* (in the step that closes the connection the resets of the aborted streams race with the close)
+            /\ IF t.out.close # "none" THEN t.out.rst \subseteq ToSet(o.rst) \/ ~ex
+               ELSE ToSet(o.rst) = t.out.rst
             /\ o.rp <= Len(o.rst)
             /\ {r[1] : r \in ToSet(o.res)} = {r[1] : r \in t.out.res}
             /\ \A r \in ToSet(o.res) : \/ <<r[1], r[2]>> \in t.out.res
@@ -69,11 +77,15 @@ Shows(o, t) ==
                     /\ o.sa = Armed(t.shut)
                     /\ o.ns = Cardinality(Open(t))
 
+\* A health check that started at the very instant the connection was closed (s.zo) may or may
+\* not have registered its PING: a step may also be taken from the state without it.
 TStep ==
     /\ Has(Line, "closed")
-    /\ Enabled(cf, s, Ev)
-    /\ s' = Apply(cf, s, Ev)
-    /\ Shows(Line, s')
+    /\ \E keep \in (IF s.zo /\ Len(s.zh) > 0 THEN {TRUE, FALSE} ELSE {TRUE}) :
+          LET s0 == IF keep THEN s ELSE [s EXCEPT !.zh = SubSeq(s.zh, 1, Len(s.zh) - 1), !.zo = FALSE] IN
+          /\ Enabled(cf, s0, Ev)
+          /\ s' = Apply(cf, s0, Ev)
+          /\ Shows(Line, s', s)
 
 TNext ==
     /\ l <= Meta.ends[cur]
